@@ -354,7 +354,7 @@ NEED_OUTCOMES = {
 NEED_ACTIONS = {
     "mc_data_cap1": ["Write", "Shutdown", "Read", "Peek", "DropRead", "DropWrite", "DropStream", "DeliverSeg",
                      "DeliverRst", "Quiet"],
-    "mc_data_cap2": ["Write", "Shutdown", "Read", "DropStream", "DeliverSeg", "DeliverRst", "Quiet"],
+    "mc_data_cap2": ["Write", "Write0", "Shutdown", "Read", "DropStream", "DeliverSeg", "DeliverRst", "Quiet"],
     "mc_conn": ["Bind", "DropListener", "Connect", "DeliverSyn", "Accept", "Poll", "Cancel", "Partition", "Repair", "Tick"],
     "mc_conn_burst": ["Bind", "Connect", "DeliverSyn", "Accept", "Cancel"],
     "mc_conn_reuse": ["Bind", "Connect", "DeliverSyn", "DeliverRst", "Accept", "Poll", "Cancel", "DropListener"],
